@@ -1,5 +1,6 @@
 import PptxModel.Model.Proto
 import PptxModel.Model.Ids
+import PptxModel.Model.Links
 namespace Pptx.Drv.C06
 open Pptx Pptx.Proto Pptx.Ids
 
@@ -7,7 +8,52 @@ def parseOp : String → Option AllocOp
   | "c" => some .viaCollection | "p" => some .viaOtherProxy | "e" => some .viaElement
   | "T" => some .turboOn | "t" => some .turboOff | _ => none
 
+/-- a target `rt.ext.id` -/
+def decTarget (t : String) : Option Links.Target :=
+  match t.splitOn "." with
+  | [a, b, c] => do
+      let a ← a.toNat?; let c ← c.toNat?
+      pure { rt := a, ext := b == "1", id := c }
+  | _ => none
+
+def encTarget (t : Links.Target) : String := s!"{t.rt}.{if t.ext then 1 else 0}.{t.id}"
+
+/-- relationships `key~rt.ext.id,...` (keys as encoded strings with `_` for `.`), references `holder~key,...` -/
+def decKey (k : String) : Option Str := decStr (k.replace "_" ".")
+def encKey (k : Str) : String := (encStr k).replace "." "_"
+
+def decRels (t : String) : Option (List Links.Rel) :=
+  if t == "!" then some [] else (t.splitOn ",").mapM fun x =>
+    match x.splitOn "~" with
+    | [k, tg] => do let k ← decKey k; let tg ← decTarget tg; pure ({ key := k, tgt := tg } : Links.Rel)
+    | _ => none
+
+def decRefs (t : String) : Option (List (Nat × Str)) :=
+  if t == "!" then some [] else (t.splitOn ",").mapM fun x =>
+    match x.splitOn "~" with
+    | [h, k] => do let h ← h.toNat?; let k ← decKey k; pure (h, k)
+    | _ => none
+
+def encPart (p : Links.Part) : String :=
+  let rs := if p.rels.isEmpty then "!" else ",".intercalate (p.rels.map fun r => s!"{encKey r.key}~{encTarget r.tgt}")
+  let fs := if p.refs.isEmpty then "!" else ",".intercalate (p.refs.map fun r => s!"{r.1}~{encKey r.2}")
+  s!"{rs} {fs}"
+
+def decLinkOp (t : String) : Option (Nat × Option Links.Target) :=
+  match t.splitOn ":" with
+  | [h, "none"] => do let h ← h.toNat?; pure (h, none)
+  | [h, tg] => do let h ← h.toNat?; let tg ← decTarget tg; pure (h, some tg)
+  | _ => none
+
 def handle : List String → Option String
+  | ["c06.links", rels, refs, ops] => do
+      -- the part after EVERY assignment: relationships in insertion order, references in document order of appearance
+      let rels ← decRels rels; let refs ← decRefs refs
+      let ops ← if ops == "!" then some [] else (ops.splitOn ";").mapM decLinkOp
+      let (_, outs) := ops.foldl (fun ((p : Links.Part), acc) (op : Nat × Option Links.Target) =>
+        let p' := Links.setLink p op.1 op.2
+        (p', acc ++ [encPart p' ++ " " ++ (match Links.address p' op.1 with | some t => encTarget t | none => "none")])) (⟨rels, refs⟩, [])
+      pure (" | ".intercalate outs)
   | ["c06.shapes", ids, ops] => do
       let ids ← decNatList ids
       let ops ← if ops == "!" then some [] else (ops.splitOn ",").mapM parseOp
